@@ -864,13 +864,20 @@ def _as_flight(alpha=5.0, tube=True):
     }
 
 
-def _as_inputs(flight, alpha=(3.0, 8.0), mach=None):
+def is_wind_off(point):
+    """rho = 0 (wind-off): the coupled state is well defined (weight loads only) while coefficient-type functionals
+    are 0/0; such a point is compared NaN-pattern-aware and never linearised."""
+    r = point.get("rho") if point else None
+    return r is not None and np.all(np.asarray(r) == 0.0)
+
+
+def _as_inputs(flight, alpha=(3.0, 8.0), mach=None, wind_off=False):
     g = lambda k: flight[k][0]  # noqa
     inp = [
         Inp("v", g("v"), "rel", -0.1, 0.1),
         Inp("alpha", g("alpha"), "uni", alpha[0], alpha[1]),
         Inp("re", g("re"), "rel", -0.3, 0.3),
-        Inp("rho", g("rho"), "rel", -0.2, 0.2),
+        Inp("rho", g("rho"), "rel", -0.2, 0.2, special=([0.0] if wind_off else [])),
         Inp("CT", g("CT"), "rel", -0.2, 0.2),
         Inp("R", g("R"), "rel", -0.3, 0.1),
         Inp("W0", g("W0"), "rel", -0.2, 0.2),
@@ -908,7 +915,7 @@ def z8(spec):
         obj=(pn + ".fuelburn", 1e-5),
     )
     prob, coupled = _as_problem(spec, [s], flight, driver=driver, point_mass_vals=pm_vals)
-    inputs = _as_inputs(flight, mach=(0.7, 0.86)) + ([
+    inputs = _as_inputs(flight, mach=(0.7, 0.86), wind_off=bool(spec.get("relief"))) + ([
         Inp("point_masses", np.array([[8000.0]]), "rel", -0.5, 0.5, special=[0.0]),
         Inp("engine_thrusts", np.array([[80.0e3]]), "rel", -0.5, 0.5, special=[0.0]),
         Inp("point_mass_locations", np.array([[25.0, -10.0, -1.0]]), "abs", -1.0, 1.0),
@@ -959,7 +966,7 @@ def z9(spec):
         flight["omega"] = (np.array([3.0, 2.0, -1.0]), "deg/s")
         flight["cg_rot"] = (np.array([2.0, 0.0, 0.0]), "m")
     prob, coupled = _as_problem(spec, [wing, tail], flight, rotational=rot)
-    inputs = _as_inputs(flight) + ([
+    inputs = _as_inputs(flight, wind_off=True) + ([
         Inp("omega", np.array([3.0, 2.0, -1.0]), "abs", -5.0, 5.0, special=[0.0]),
         Inp("cg_rot", np.array([2.0, 0.0, 0.0]), "abs", -1.0, 1.0),
     ] if rot else []) + [
@@ -996,7 +1003,7 @@ def z10(spec):
     flight = _as_flight(alpha=2.0, tube=False)
     flight["fuel_mass"] = (10000.0, "kg")
     prob, coupled = _as_problem(spec, [s], flight, fuel_vol=True)
-    inputs = _as_inputs(flight, alpha=(0.0, 4.0), mach=(0.7, 0.87)) + [
+    inputs = _as_inputs(flight, alpha=(0.0, 4.0), mach=(0.7, 0.87), wind_off=True) + [
         Inp("load_factor", 1.0, "uni", 0.8, 2.5, special=[1.0]),
         Inp("fuel_mass", 10000.0, "rel", -0.5, 1.0),
         Inp("wing.twist_cp", np.linspace(4.0, 9.0, 3), "abs", -1.5, 1.5),
@@ -1204,6 +1211,23 @@ def z13(spec):
     tail = _aero_surface("tail", mesh2, True, None, viscous=False)
     surfaces = [wing, tail]
     compressible = bool(spec.get("compressible", False))
+    # The MPhys builder is the documented entry point: options and sub-systems are taken from it (the MPI
+    # DistributedConverter inside its coupling group cannot run without mpi4py, so the solver group is added directly
+    # with the builder's options). Only non-default options are passed, as a user would.
+    from openaerostruct.mphys import AeroBuilder
+
+    class _SerialComm:
+        rank = 0
+        size = 1
+
+    bopts = {"write_solution": False}
+    if not compressible:
+        bopts["compressible"] = False  # the builder's documented default is True
+    if spec.get("user_sref"):
+        bopts["user_specified_Sref"] = True
+    builder = AeroBuilder(surfaces, bopts)
+    builder.initialize(_SerialComm())
+    compressible = bool(builder.options["compressible"])
 
     prob = om.Problem(reports=False)
     m = prob.model
@@ -1215,12 +1239,16 @@ def z13(spec):
     dvs.add_output("v", 150.0, units="m/s")
     dvs.add_output(FlowVars.REYNOLDS_NUMBER, 1e6, units="1/m")
     dvs.add_output("cg", val=np.zeros(3), units="m")
-    m.add_subsystem("mesh", AeroMesh(surfaces=surfaces))
+    if spec.get("user_sref"):
+        dvs.add_output("S_ref_total", val=15.0, units="m**2")
+    m.add_subsystem("mesh", builder.get_mesh_coordinate_subsystem())
     pt = m.add_subsystem("aero_point_0", om.Group(), promotes_inputs=[FlowVars.ANGLE_OF_ATTACK, FlowVars.YAW_ANGLE, FlowVars.MACH_NUMBER, FlowVars.REYNOLDS_NUMBER, "rho", "v", "cg"])
     pt.add_subsystem("demuxer", DemuxSurfaceMesh(surfaces=surfaces), promotes=["*"])
     pt.add_subsystem("states", AeroSolverGroup(surfaces=surfaces, compressible=compressible), promotes=["*"])
     pt.add_subsystem("muxer", MuxSurfaceForces(surfaces=surfaces), promotes=["*"])
-    pt.add_subsystem("funcs", AeroFuncsGroup(surfaces=surfaces, write_solution=False), promotes=["*"])
+    pt.add_subsystem("funcs", builder.get_post_coupling_subsystem("aero_point_0"), promotes=["*"])
+    if spec.get("user_sref"):
+        m.connect("S_ref_total", "aero_point_0.S_ref_total")
     m.connect("mesh.%s" % MPhysVariables.Aerodynamics.Surface.Mesh.COORDINATES,
               "aero_point_0.%s" % MPhysVariables.Aerodynamics.Surface.COORDINATES)
     _setup(prob, spec)
@@ -1234,7 +1262,7 @@ def z13(spec):
         Inp("v", 150.0, "rel", -0.15, 0.15),
         Inp("cg", np.zeros(3), "abs", -1.0, 1.0, special=[0.0]),
         Inp("mesh.%s" % MPhysVariables.Aerodynamics.Surface.Mesh.COORDINATES, xpts, "abs", -0.02, 0.02),
-    ]
+    ] + ([Inp("S_ref_total", 15.0, "rel", -0.2, 0.2)] if spec.get("user_sref") else [])
     pn = "aero_point_0"
     of = [pn + ".CL", pn + ".CD", pn + ".CM", pn + ".wing.CL", pn + ".tail.CD", pn + "." + MPhysVariables.Aerodynamics.Surface.LOADS]
     return Model(spec, prob, inputs, of, [i.name for i in inputs], [wing, tail, md1, md2])
@@ -1454,6 +1482,7 @@ def variants():
         {"zoo": "Z12", "wingbox": True},
         {"zoo": "Z13"},
         {"zoo": "Z13", "compressible": True},
+        {"zoo": "Z13", "user_sref": True},
         {"zoo": "Z14"},
         {"zoo": "Z15"},
     ]
